@@ -313,6 +313,17 @@ class HeapFn(cxx2gal.LoopFn):
                 x = self.inner(x)[0]
             if x.get("kind") in ("CallExpr", "CXXMemberCallExpr"):
                 spec = self.calls.get(self.callee_name(self.inner(x)[0]))
+                if isinstance(spec, dict) and spec.get("alloc") and spec.get("rec_event"):
+                    # the allocator may refuse (oracle stream spec["may_fail"]: non-zero = refused, NULL); the event names the receiver
+                    rec = norm_type(qual(n))[:-1]
+                    cells = self.cells(rec)
+                    self.stores = True
+                    fl = self.tmp("o")
+                    return self.recv_addr(self.inner(x)[0], lambda r: (
+                        "(match %s with nil => Oob | cons %s %s => if z2b %s then let evs := evs ++ [%s] in %s else "
+                        "(let pnew := HPtr (List.length mem) 0 in let mem := mem ++ [repeat (VInt 0) %d] in let evs := evs ++ [%s] in %s) end)") % (
+                        spec["may_fail"], fl, spec["may_fail"], fl, spec["fail_event"].format(r=r), k("HNull"), cells,
+                        spec["rec_event"].format(r=r, p="pnew"), k("pnew")))
                 if isinstance(spec, dict) and spec.get("alloc"):
                     rec = norm_type(qual(n))[:-1]
                     cells = self.cells(rec)
@@ -468,6 +479,8 @@ class HeapFn(cxx2gal.LoopFn):
             return k("0")
         if kd == "StringLiteral" and n.get("value") in self.cfg.get("string_literals", {}):
             return k(self.cfg["string_literals"][n["value"]])      # an opaque address standing for that text
+        if kd == "StringLiteral" and "string_literal_default" in self.cfg:
+            return k(self.cfg["string_literal_default"])           # a text the translated code only passes on (a file name)
         if kd == "CXXThisExpr":
             return k(self.this_var())
         if kd in CASTS:
@@ -493,6 +506,10 @@ class HeapFn(cxx2gal.LoopFn):
             if self.is_record(qual(x)):
                 return self.obj_addr(x, k)
             return self.L(x, lambda lv: k(lv[1]) if lv[0] == "cell" else self._bad("address of a variable"))
+        if kd == "BinaryOperator" and n.get("opcode") in ("+", "-") and ctype(qual(n))[0] == "ptr" and self.coqtype_safe(qual(n)) == "Z":
+            # arithmetic on an opaque byte address: plain 64-bit address arithmetic
+            a, b = inn
+            return self.E(a, lambda x: self.E(b, lambda y: k("(cw 64 false (%s %s %s))" % (x, n["opcode"], y))))
         if kd == "BinaryOperator" and n.get("opcode") in ("==", "!="):
             a, b = inn
             ta, tb = self.coqtype_safe(qual(a)), self.coqtype_safe(qual(b))
@@ -538,7 +555,20 @@ class HeapFn(cxx2gal.LoopFn):
                 ld = "hload_ptr" if self.is_rec_ptr(ft) else "hload_int"
                 v = self.tmp("v")
                 return self.recv_addr(inn[0], lambda r: self.hoff(r, off, lambda q: "(match %s mem %s with None => Oob | Some %s => %s end)" % (ld, q, v, k(v))))
-            if isinstance(spec0, dict) and spec0.get("event") and (spec0.get("args") or spec0.get("recv")):
+            if isinstance(spec0, dict) and spec0.get("fun"):
+                # a pure function of the receiver and the arguments (a Section variable of the generated file)
+                args = [inn[1:][i] for i in spec0.get("args", [])]
+
+                def fargs(r):
+                    def go(i, acc):
+                        if i == len(args):
+                            return k("(%s %s)" % (spec0["fun"], " ".join(([r] if r is not None else []) + acc)))
+                        return self.E(args[i], lambda v: go(i + 1, acc + [v]))
+                    return go(0, [])
+                if spec0.get("recv"):
+                    return self.recv_addr(inn[0], fargs)
+                return fargs(None)
+            if isinstance(spec0, dict) and spec0.get("event") and (spec0.get("args") or spec0.get("recv") or spec0.get("oracle")):
                 # the event carries the receiver ({r}) and the values of the call's arguments (all, or the listed positions);
                 # the call yields spec["value"]
                 args = list(inn[1:])
@@ -547,9 +577,20 @@ class HeapFn(cxx2gal.LoopFn):
                 elif not spec0.get("args"):
                     args = []
 
+                if spec0.get("strip_casts"):        # (char*) node, (char*) memory: the pointer itself
+                    def unc(x):
+                        while x.get("kind") in SKIP or (x.get("kind") in CASTS and x.get("castKind") in ("BitCast", "NoOp")):
+                            x = self.inner(x)[0]
+                        return x
+                    args = [unc(x) for x in args]
+
                 def evargs(r):
                     def go(i, acc):
                         if i == len(args):
+                            if spec0.get("oracle"):      # the answer of the outside world: the next value of the oracle stream
+                                g, v = spec0["oracle"], self.tmp("o")
+                                return "(match %s with nil => Oob | cons %s %s => let evs := evs ++ [%s] in %s end)" % (
+                                    g, v, g, spec0["event"].format(*acc, r=r, v=v), k(v))
                             return "(let evs := evs ++ [%s] in %s)" % (spec0["event"].format(*acc, r=r), k(spec0.get("value", "0")))
                         return self.E(args[i], lambda v: go(i + 1, acc + [v]))
                     return go(0, [])
@@ -586,6 +627,11 @@ class HeapFn(cxx2gal.LoopFn):
                     def ev(i, acc):
                         if i == len(args):
                             return self.call(spec, acc, k)
+                        if args[i].get("kind") == "CXXDefaultArgExpr":       # the declaration's default value, given in the configuration
+                            dv = spec.get("defaults", {}).get(i)
+                            if dv is None:
+                                raise Unsupported("default argument %d of %s" % (i, name))
+                            return ev(i + 1, acc + [dv])
                         return self.E(args[i], lambda v: ev(i + 1, acc + [v]))
                     return ev(0, [r])
                 if base is None or base.get("kind") == "CXXThisExpr":
@@ -710,6 +756,11 @@ class HeapFn(cxx2gal.LoopFn):
                 spec = None
             if isinstance(spec, dict) and spec.get("recv_field"):
                 flags.add("mem")
+            if isinstance(spec, dict) and spec.get("oracle"):
+                flags.add("mem")
+                for g, _ in self.cfg.get("ghosts", []):
+                    assigned.add(g)
+                    refs.add(g)
             if isinstance(spec, dict) and (spec.get("format_event") or spec.get("write_event")):
                 flags.add("mem")
                 for g, _ in self.cfg.get("ghosts", []):
@@ -807,7 +858,12 @@ class HeapFn(cxx2gal.LoopFn):
             ps.append("(this_ : hptr)")
         for g in self.gparams:
             ps.append("(%s : hptr)" % g)
-        for p in params:
+        for i, p in enumerate(params):
+            if not p.get("name"):       # a parameter the function does not name (and so does not use): callers still pass a value
+                t = self.coqtype_safe(qual(p))
+                if t:
+                    ps.append("(unused_%d : %s)" % (i, t))
+                continue
             nm = self.ident(p.get("name", "_"))
             if nm in self.vars:
                 ps.append("(%s : %s)" % (nm, self.vars[nm]))
@@ -907,6 +963,19 @@ class HeapTranslator(cxx2coq.Translator):
         return bool(re.match(r"_ZNK?%d%s%d%s" % (len(cls), re.escape(cls), len(fn), re.escape(fn)), d.get("mangledName", "")))
 
 
+def compiler_sizeof(repo, path, rec):
+    """sizeof(rec) as g++ computes it for the translation unit `path` of the repository (LP64): read off the diagnostic of an
+    incomplete template instantiated with it (nothing is linked or run)"""
+    import subprocess
+    src = '#include "%s"\ntemplate <unsigned long N> struct VerifSizeProbe;\nVerifSizeProbe<sizeof(%s)> verif_size_probe;\n' % (os.path.join(repo, path), rec)
+    p = subprocess.run(["g++", "-std=c++11", "-I" + os.path.join(repo, "include"), "-x", "c++", "-", "-fsyntax-only", "-w"], input=src, text=True,
+                       stdout=subprocess.PIPE, stderr=subprocess.STDOUT)
+    m = re.search(r"VerifSizeProbe<(\d+)", p.stdout)
+    if not m:
+        raise Unsupported("sizeof(%s): %s" % (rec, p.stdout[-300:]))
+    return int(m.group(1))
+
+
 def layouts_text(tr):
     out = ["(* record layouts re-read from the class definitions (cell index of every scalar member) *)"]
     for rec, fields in tr.layouts.items():
@@ -929,6 +998,9 @@ def generate_cached(h, repo, root, name, cfgs, header, records, footer=""):
         return open(cp).read()
     out, ok = [header], True
     try:
+        for m in set(re.findall(r"@sizeof:([\w/.]+):(\w+)@", header)):       # sizeof of a record, measured by the compiler
+            header = header.replace("@sizeof:%s:%s@" % m, str(compiler_sizeof(repo, m[0], m[1])))
+        out = [header]
         tr = HeapTranslator(repo, records)
         out.append(layouts_text(tr))
     except Unsupported as e:
